@@ -19,19 +19,19 @@ open DK
 /-- whatever the optimiser answers, if it reports `success = false` — with ANY status and ANY `x` —
 `solve` raises `OptimizationException` carrying that result (unless the fixed-flow shortcut applied,
 in which case the optimiser is not called at all). -/
-theorem solve_raises_on_failure (d : SDev ℝ) (P : Mat ℝ) (s0? : Option (ℕ → ℝ)) (prox : Option ℝ) (cb : Bool)
+theorem solve_raises_on_failure (d : SDev ℝ) (P : Mat ℝ) (s0? : Option (ℕ → ℝ)) (prox : Option ℝ) (cb : Bool) (tol : ℝ)
     (minimize : Problem ℝ → Result ℝ)
     (hns : allFixed d.dim d.flatBounds = false)
     (hfail : (minimize (solveProblem d P (startPoint d s0?) prox cb)).success = false) :
-    solve d P s0? prox cb minimize = .error (minimize (solveProblem d P (startPoint d s0?) prox cb)) := by
+    solve d P s0? prox cb tol minimize = .error (.result (minimize (solveProblem d P (startPoint d s0?) prox cb))) := by
   unfold solve
   simp [hns, hfail]
 
 /-- the fault-injection form: a stub that answers `r` (any `x`, any `status`) with `success = false`. -/
-theorem solve_raises_on_every_status (d : SDev ℝ) (P : Mat ℝ) (s0? : Option (ℕ → ℝ)) (prox : Option ℝ) (cb : Bool)
+theorem solve_raises_on_every_status (d : SDev ℝ) (P : Mat ℝ) (s0? : Option (ℕ → ℝ)) (prox : Option ℝ) (cb : Bool) (tol : ℝ)
     (r : Result ℝ) (hns : allFixed d.dim d.flatBounds = false) (hfail : r.success = false) :
-    solve d P s0? prox cb (fun _ => r) = .error r :=
-  solve_raises_on_failure d P s0? prox cb (fun _ => r) hns hfail
+    solve d P s0? prox cb tol (fun _ => r) = .error (.result r) :=
+  solve_raises_on_failure d P s0? prox cb tol (fun _ => r) hns hfail
 
 /-- a device with one free slot: the hypotheses are satisfiable. -/
 def exDev : SDev ℝ :=
@@ -41,17 +41,46 @@ def exDev : SDev ℝ :=
 theorem exDev_not_fixed : allFixed exDev.dim exDev.flatBounds = false := by
   simp [allFixed, exDev, SDev.dim, SDev.flatBounds, List.range, List.range.loop]
 
-example : solve exDev (fun _ _ => 1) none none false (fun _ => ⟨fun _ => 7, false, 4⟩) = .error ⟨fun _ => 7, false, 4⟩ :=
-  solve_raises_on_every_status _ _ _ _ _ _ exDev_not_fixed rfl
+example : solve exDev (fun _ _ => 1) none none false (1/1000000) (fun _ => ⟨fun _ => 7, false, 4⟩)
+    = .error (.result ⟨fun _ => 7, false, 4⟩) :=
+  solve_raises_on_every_status _ _ _ _ _ _ _ exDev_not_fixed rfl
 
 /-! ## (b) what an `ok` outcome can be -/
 
-/-- a returned flow is either the fixed-flow shortcut (lower bounds reshaped, no optimiser result)
-or the reshaped `x` of an optimiser result that reported success. -/
-theorem solve_ok_cases (d : SDev ℝ) (P : Mat ℝ) (s0? : Option (ℕ → ℝ)) (prox : Option ℝ) (cb : Bool)
+/-- the flattened lower bounds: the only in-bounds flow of a fully fixed device. -/
+def lowFlow (d : SDev ℝ) : ℕ → ℝ := fun k => (d.flatBounds k).1
+
+/-- every constraint (as SciPy sees it, on the flat vector) holds at `x` within `tol`:
+`fn x ≥ −tol`, and `fn x ≤ tol` too for an equality. -/
+def AllWithin (d : SDev ℝ) (tol : ℝ) (x : ℕ → ℝ) : Prop :=
+  ∀ c ∈ d.cons.map (MCon.toFlat d.n), -tol ≤ c.fn x ∧ (c.isEq = true → c.fn x ≤ tol)
+
+theorem all_withinTol_iff (d : SDev ℝ) (tol : ℝ) (x : ℕ → ℝ) :
+    (d.cons.map (MCon.toFlat d.n)).all (fun c => c.withinTol tol x) = true ↔ AllWithin d tol x := by
+  unfold AllWithin
+  rw [List.all_eq_true]
+  refine forall_congr' (fun c => forall_congr' (fun _ => ?_))
+  unfold Con.withinTol
+  cases hE : c.isEq <;> simp [not_lt]
+
+/-- at tolerance `0` the shortcut's test is exactly constraint satisfaction. -/
+theorem allWithin_zero_iff (d : SDev ℝ) (x : ℕ → ℝ) :
+    AllWithin d 0 x ↔ SatAll (d.cons.map (MCon.toFlat d.n)) x := by
+  unfold AllWithin SatAll
+  refine forall_congr' (fun c => forall_congr' (fun _ => ?_))
+  unfold Con.Sat
+  cases hE : c.isEq
+  · simp
+  · simp only [neg_zero, forall_const, if_true]
+    exact ⟨fun h => le_antisymm h.2 h.1, fun h => by rw [h]; exact ⟨le_rfl, le_rfl⟩⟩
+
+/-- a returned flow is either the fixed-flow shortcut (lower bounds reshaped, no optimiser result, and
+every constraint holds within the tolerance there) or the reshaped `x` of an optimiser result that
+reported success. -/
+theorem solve_ok_cases (d : SDev ℝ) (P : Mat ℝ) (s0? : Option (ℕ → ℝ)) (prox : Option ℝ) (cb : Bool) (tol : ℝ)
     (minimize : Problem ℝ → Result ℝ) (S : Mat ℝ) (r? : Option (Result ℝ))
-    (h : solve d P s0? prox cb minimize = .ok (S, r?)) :
-    (allFixed d.dim d.flatBounds = true ∧ S = unflat d.n (fun k => (d.flatBounds k).1) ∧ r? = none)
+    (h : solve d P s0? prox cb tol minimize = .ok (S, r?)) :
+    (allFixed d.dim d.flatBounds = true ∧ S = unflat d.n (lowFlow d) ∧ r? = none ∧ AllWithin d tol (lowFlow d))
     ∨ (allFixed d.dim d.flatBounds = false ∧
         ∃ r, r = minimize (solveProblem d P (startPoint d s0?) prox cb) ∧ r.success = true
           ∧ S = unflat d.n r.x ∧ r? = some r) := by
@@ -59,9 +88,13 @@ theorem solve_ok_cases (d : SDev ℝ) (P : Mat ℝ) (s0? : Option (ℕ → ℝ))
   by_cases hf : allFixed d.dim d.flatBounds = true
   · left
     rw [if_pos hf] at h
-    injection h with h
-    injection h with h1 h2
-    exact ⟨hf, h1.symm, h2.symm⟩
+    by_cases hc : (d.cons.map (MCon.toFlat d.n)).all (fun c => c.withinTol tol (fun k => (d.flatBounds k).1)) = true
+    · rw [if_pos hc] at h
+      injection h with h
+      injection h with h1 h2
+      exact ⟨hf, h1.symm, h2.symm, (all_withinTol_iff d tol _).mp hc⟩
+    · rw [if_neg hc] at h
+      simp at h
   · right
     rw [if_neg hf] at h
     simp only [Bool.not_eq_true] at hf
@@ -72,22 +105,39 @@ theorem solve_ok_cases (d : SDev ℝ) (P : Mat ℝ) (s0? : Option (ℕ → ℝ))
       exact ⟨hf, _, rfl, hs, h1.symm, h2.symm⟩
     · simp [hs] at h
 
-example : solve exDev (fun _ _ => 1) none none false (fun _ => ⟨fun _ => 7, true, 0⟩)
+example : solve exDev (fun _ _ => 1) none none false (1/1000000) (fun _ => ⟨fun _ => 7, true, 0⟩)
     = .ok (unflat 2 (fun _ => 7), some ⟨fun _ => 7, true, 0⟩) := by
   unfold solve
   rw [if_neg (by rw [exDev_not_fixed]; simp)]
   rfl
 
-/-- the shortcut never looks at the constraints (as the code is: a fully fixed device whose fixed
-flow violates a constraint is returned silently). -/
-theorem shortcut_ignores_constraints (d : SDev ℝ) (cs : List (MCon ℝ)) (P : Mat ℝ) (s0? : Option (ℕ → ℝ))
-    (prox : Option ℝ) (cb : Bool) (m₁ m₂ : Problem ℝ → Result ℝ)
-    (hf : allFixed d.dim d.flatBounds = true) :
-    solve { d with cons := cs } P s0? prox cb m₁ = solve d P s0? prox cb m₂ := by
+/-- the fixed-flow shortcut: the optimiser is never consulted; the outcome is `ok` (the lower bounds
+reshaped) exactly when every constraint holds within the tolerance at the lower-bound flow, and
+`OptimizationException` otherwise. -/
+theorem shortcut_checks_constraints (d : SDev ℝ) (P : Mat ℝ) (s0? : Option (ℕ → ℝ)) (prox : Option ℝ) (cb : Bool)
+    (tol : ℝ) (minimize : Problem ℝ → Result ℝ) (hf : allFixed d.dim d.flatBounds = true) :
+    (AllWithin d tol (lowFlow d) → solve d P s0? prox cb tol minimize = .ok (unflat d.n (lowFlow d), none)) ∧
+    (¬ AllWithin d tol (lowFlow d) → solve d P s0? prox cb tol minimize = .error .fixedInfeasible) := by
   unfold solve
-  have : allFixed (SDev.dim { d with cons := cs }) (SDev.flatBounds { d with cons := cs }) = true := hf
-  rw [if_pos this, if_pos hf]
-  rfl
+  rw [if_pos hf]
+  constructor
+  · intro h
+    exact if_pos ((all_withinTol_iff d tol (lowFlow d)).mpr h)
+  · intro h
+    exact if_neg (fun hc => h ((all_withinTol_iff d tol (lowFlow d)).mp hc))
+
+/-- hence `ok` iff the constraints hold within the tolerance. -/
+theorem shortcut_ok_iff (d : SDev ℝ) (P : Mat ℝ) (s0? : Option (ℕ → ℝ)) (prox : Option ℝ) (cb : Bool)
+    (tol : ℝ) (minimize : Problem ℝ → Result ℝ) (hf : allFixed d.dim d.flatBounds = true) :
+    (∃ v, solve d P s0? prox cb tol minimize = .ok v) ↔ AllWithin d tol (lowFlow d) := by
+  have h := shortcut_checks_constraints d P s0? prox cb tol minimize hf
+  constructor
+  · rintro ⟨v, hv⟩
+    by_contra hn
+    rw [h.2 hn] at hv
+    simp at hv
+  · intro ha
+    exact ⟨_, h.1 ha⟩
 
 /-- when it applies, the shortcut's flow is the only in-bounds flow (so it is the minimiser of ANY
 cost over the box): every in-bounds `y` equals the lower bounds on the `dim` variables. -/
@@ -109,9 +159,25 @@ def exFixed : SDev ℝ := { exDev with bounds := fun _ i => if i = 0 then (1, 1)
 theorem exFixed_fixed : allFixed exFixed.dim exFixed.flatBounds = true := by
   simp [allFixed, exFixed, exDev, SDev.dim, SDev.flatBounds, List.range, List.range.loop]
 
-example (cs : List (MCon ℝ)) (m₁ m₂ : Problem ℝ → Result ℝ) :
-    solve { exFixed with cons := cs } (fun _ _ => 1) none none false m₁ = solve exFixed (fun _ _ => 1) none none false m₂ :=
-  shortcut_ignores_constraints exFixed cs _ _ _ _ m₁ m₂ exFixed_fixed
+/-- the fixed device with an aggregate constraint `x₀ + x₁ − c ≥ 0` (the fixed flow is `(1, 2)`). -/
+def exFixedCon (c : ℝ) : SDev ℝ :=
+  { exFixed with cons := [{ isEq := false, fn := fun S => S 0 0 + S 0 1 - c, jac := none }] }
+
+theorem exFixedCon_fixed (c : ℝ) : allFixed (exFixedCon c).dim (exFixedCon c).flatBounds = true := exFixed_fixed
+
+theorem exFixedCon_within (c : ℝ) : AllWithin (exFixedCon c) (1/1000000) (lowFlow (exFixedCon c)) ↔ c ≤ 3 + 1/1000000 := by
+  simp only [AllWithin, exFixedCon, exFixed, exDev, List.map, List.mem_singleton, forall_eq, MCon.toFlat, lowFlow,
+    SDev.flatBounds, unflat, flatIdx]
+  norm_num
+
+/-- satisfied (`3 ≥ 2`): returned; violated (`3 ≥ 4` fails): raised — both hypotheses are satisfiable. -/
+example (m : Problem ℝ → Result ℝ) : solve (exFixedCon 2) (fun _ _ => 1) none none false (1/1000000) m
+    = .ok (unflat (exFixedCon 2).n (lowFlow (exFixedCon 2)), none) :=
+  (shortcut_checks_constraints (exFixedCon 2) _ _ _ _ _ m (exFixedCon_fixed 2)).1 ((exFixedCon_within 2).mpr (by norm_num))
+
+example (m : Problem ℝ → Result ℝ) : solve (exFixedCon 4) (fun _ _ => 1) none none false (1/1000000) m = .error .fixedInfeasible :=
+  (shortcut_checks_constraints (exFixedCon 4) _ _ _ _ _ m (exFixedCon_fixed 4)).2
+    (fun h => by have := (exFixedCon_within 4).mp h; norm_num at this)
 
 example (y : ℕ → ℝ) (hy : ∀ k < exFixed.dim, (exFixed.flatBounds k).1 ≤ y k ∧ y k ≤ (exFixed.flatBounds k).2) :
     ∀ k < exFixed.dim, y k = (exFixed.flatBounds k).1 :=
